@@ -66,7 +66,7 @@ def function_effects(f):
   effs = effects.effects_of(f.node, g, rd)
   out = []
   for e in effs:
-    exp_ast = rd.expand(e.node, e.target)[0]
+    exp_ast = rd.expand(e.node, e.target, aliases=True)[0]
     if e.kind in ('attr-store', 'item-store', 'delete'):
       recv = exp_ast.value      # object being written
     elif e.kind == 'mutator-call':
